@@ -60,6 +60,7 @@ func (x *Exec) verify(con *Contract) (fres *FuncResult) {
 	x.boundedNotes = fres.Bounded
 	x.aborted = ""
 	x.visitedBlocks = map[*ssa.BasicBlock]bool{}
+	x.sinkHit = map[string]bool{}
 	x.instrs = 0
 	x.lastArgs = map[string]*Val{}
 	x.maxPaths = 4096
@@ -221,6 +222,15 @@ func (x *Exec) verify(con *Contract) (fres *FuncResult) {
 	})
 	if returns == 0 && !con.has("noreturn") && x.aborted == "" {
 		fres.Vacuous = "no feasible path reaches a return"
+	}
+	// a sink clause guards nothing if no feasible path calls the callee it names
+	if x.aborted == "" && fres.Vacuous == "" {
+		for _, cl := range con.Clauses {
+			if cl.Kind == "sink" && !x.sinkHit[cl.ID] {
+				fres.Vacuous = "sink clause " + cl.ID + " names a callee (" + cl.Name + ") that no feasible path calls"
+				break
+			}
+		}
 	}
 	// block coverage: code of the function that no feasible path reached was not verified at all
 	// (a contradictory precondition or callee contract makes everything behind it pass vacuously).
